@@ -54,16 +54,25 @@ func (node *tagIncludeNode) Execute(ctx *ExecutionContext, writer TemplateWriter
 		}
 		err2 = includedTpl.ExecuteWriter(includeCtx, writer)
 		if err2 != nil {
-			return err2.(*Error)
+			return node.executionError(ctx, err2)
 		}
 		return nil
 	}
 	// Template is already parsed with static filename
 	err := node.tpl.ExecuteWriter(includeCtx, writer)
 	if err != nil {
-		return err.(*Error)
+		return node.executionError(ctx, err)
 	}
 	return nil
+}
+
+// executionError converts the error of the included template's execution. It is
+// a *Error unless the writer we were given failed; then its error comes back as it is.
+func (node *tagIncludeNode) executionError(ctx *ExecutionContext, err error) *Error {
+	if pongoErr, ok := err.(*Error); ok {
+		return pongoErr
+	}
+	return ctx.OrigError(err, nil)
 }
 
 type tagIncludeEmptyNode struct{}
